@@ -1,65 +1,159 @@
-use syn::{Item, Fields, Meta, Expr, Lit};
+// serdetab — prints, as JSON, the serde meta items of every struct / enum in the given
+// source files (derive-helper attributes are not retained in HIR on this nightly, so the
+// exporter cannot see them). No rule lives here.
 use quote::ToTokens;
 use syn::punctuated::Punctuated;
-use syn::Token;
+use syn::{Expr, Fields, Item, Lit, Meta, Token};
 
-fn serde_metas(attrs: &[syn::Attribute]) -> Vec<(String, Option<String>)> {
-    let mut out = vec![];
-    for a in attrs { if a.path().is_ident("serde") {
-        if let Ok(list) = a.parse_args_with(Punctuated::<Meta, Token![,]>::parse_terminated) {
-            for m in list { match m {
-                Meta::Path(p) => out.push((p.to_token_stream().to_string(), None)),
-                Meta::NameValue(nv) => { let v = match &nv.value { Expr::Lit(l) => match &l.lit { Lit::Str(s) => s.value(), o => o.to_token_stream().to_string() }, o => o.to_token_stream().to_string() }; out.push((nv.path.to_token_stream().to_string(), Some(v))); }
-                Meta::List(l) => out.push((l.path.to_token_stream().to_string(), Some(l.tokens.to_string()))),
-            } }
+fn esc(s: &str) -> String {
+    let mut o = String::from("\"");
+    for c in s.chars() {
+        match c {
+            '"' => o.push_str("\\\""),
+            '\\' => o.push_str("\\\\"),
+            '\n' => o.push_str("\\n"),
+            '\t' => o.push_str("\\t"),
+            c if (c as u32) < 0x20 => o.push_str(&format!("\\u{:04x}", c as u32)),
+            c => o.push(c),
         }
-    } }
-    out
+    }
+    o.push('"');
+    o
 }
-fn snake(s: &str) -> String { let mut o = String::new(); for (i,c) in s.chars().enumerate() { if c.is_uppercase() { if i>0 { o.push('_'); } o.extend(c.to_lowercase()); } else { o.push(c); } } o }
-fn main() {
-    let path = std::env::args().nth(1).unwrap();
-    let file = syn::parse_file(&std::fs::read_to_string(&path).unwrap()).unwrap();
-    let envelope = ["id","session_id","stream_kind","stream_id","timestamp_ms","seq","type"];
-    let mut problems = 0;
-    for item in &file.items {
-        match item {
-            Item::Enum(e) if e.ident == "EventKind" => {
-                let em = serde_metas(&e.attrs);
-                println!("EventKind container: {:?}", em);
-                let rename_all = em.iter().find(|m| m.0=="rename_all").and_then(|m| m.1.clone());
-                assert_eq!(rename_all.as_deref(), Some("snake_case"));
-                let mut tags: std::collections::BTreeMap<String, String> = Default::default();
-                let (mut nv, mut nf) = (0, 0);
-                for v in &e.variants {
-                    nv += 1;
-                    let vm = serde_metas(&v.attrs);
-                    let tag = vm.iter().find(|m| m.0=="rename").and_then(|m| m.1.clone()).unwrap_or_else(|| snake(&v.ident.to_string()));
-                    let mut names = vec![tag.clone()];
-                    for m in &vm { if m.0=="alias" { names.push(m.1.clone().unwrap()); } }
-                    for n in names { if let Some(prev) = tags.insert(n.clone(), v.ident.to_string()) { println!("PROBLEM duplicate tag {n}: {prev} vs {}", v.ident); problems += 1; } }
-                    if let Fields::Named(named) = &v.fields { for f in &named.named {
-                        nf += 1;
-                        let fm = serde_metas(&f.attrs);
-                        let fname = f.ident.as_ref().unwrap().to_string();
-                        let wire = fm.iter().find(|m| m.0=="rename").and_then(|m| m.1.clone()).unwrap_or(fname.clone());
-                        let ty = f.ty.to_token_stream().to_string();
-                        let has_skip = fm.iter().any(|m| m.0=="skip_serializing_if");
-                        let has_default = fm.iter().any(|m| m.0=="default");
-                        if has_skip && !has_default && !ty.starts_with("Option") { println!("PROBLEM {}::{} skip_serializing_if without default on {}", v.ident, fname, ty); problems += 1; }
-                        if envelope.contains(&wire.as_str()) { println!("PROBLEM {}::{} wire name collides with envelope", v.ident, fname); problems += 1; }
-                        for m in &fm { if ["skip","skip_serializing","skip_deserializing","serialize_with","deserialize_with","with","flatten"].contains(&m.0.as_str()) { println!("NOTE {}::{} uses {}", v.ident, fname, m.0); } }
-                    } }
+
+fn metas(attrs: &[syn::Attribute]) -> String {
+    let mut out = vec![];
+    for a in attrs {
+        if a.path().is_ident("serde") {
+            match a.parse_args_with(Punctuated::<Meta, Token![,]>::parse_terminated) {
+                Ok(list) => {
+                    for m in list {
+                        match m {
+                            Meta::Path(p) => out.push(format!("[{},null]", esc(&p.to_token_stream().to_string()))),
+                            Meta::NameValue(nv) => {
+                                let v = match &nv.value {
+                                    Expr::Lit(l) => match &l.lit {
+                                        Lit::Str(s) => s.value(),
+                                        o => o.to_token_stream().to_string(),
+                                    },
+                                    o => o.to_token_stream().to_string(),
+                                };
+                                out.push(format!("[{},{}]", esc(&nv.path.to_token_stream().to_string()), esc(&v)));
+                            }
+                            Meta::List(l) => out.push(format!(
+                                "[{},{}]",
+                                esc(&l.path.to_token_stream().to_string()),
+                                esc(&l.tokens.to_string())
+                            )),
+                        }
+                    }
                 }
-                println!("variants={nv} fields={nf} distinct wire tags+aliases={}", tags.len());
+                Err(_) => out.push(format!("[\"<unparsed>\",{}]", esc(&a.to_token_stream().to_string()))),
             }
-            Item::Struct(st) if ["Event","EventWire","CompactionPlannedCutPoint","ContextSelectionCompactionCheckpointV1","ContextSelectionResetV1"].contains(&st.ident.to_string().as_str()) => {
-                let derives: Vec<String> = st.attrs.iter().filter(|a| a.path().is_ident("derive")).map(|a| a.to_token_stream().to_string()).collect();
-                println!("struct {} derives={:?} container={:?}", st.ident, derives, serde_metas(&st.attrs));
-                for f in &st.fields { let fm = serde_metas(&f.attrs); if !fm.is_empty() { println!("   {} : {:?}", f.ident.as_ref().unwrap(), fm); } }
+        }
+    }
+    format!("[{}]", out.join(","))
+}
+
+fn derives(attrs: &[syn::Attribute]) -> String {
+    let mut out = vec![];
+    for a in attrs {
+        if a.path().is_ident("derive") {
+            if let Ok(list) = a.parse_args_with(Punctuated::<syn::Path, Token![,]>::parse_terminated) {
+                for p in list {
+                    out.push(esc(&p.segments.last().map(|s| s.ident.to_string()).unwrap_or_default()));
+                }
+            }
+        }
+    }
+    format!("[{}]", out.join(","))
+}
+
+fn has_cfg_test(attrs: &[syn::Attribute]) -> bool {
+    attrs.iter().any(|a| a.path().is_ident("cfg") && a.to_token_stream().to_string().contains("test"))
+}
+
+fn fields(f: &Fields) -> String {
+    let mut out = vec![];
+    for (i, fd) in f.iter().enumerate() {
+        let name = fd.ident.as_ref().map(|i| i.to_string()).unwrap_or_else(|| i.to_string());
+        out.push(format!(
+            "{{\"name\":{},\"ty\":{},\"serde\":{}}}",
+            esc(&name),
+            esc(&fd.ty.to_token_stream().to_string()),
+            metas(&fd.attrs)
+        ));
+    }
+    format!("[{}]", out.join(","))
+}
+
+fn items(list: &[Item], module: &str, out: &mut Vec<String>) {
+    for item in list {
+        match item {
+            Item::Enum(e) if !has_cfg_test(&e.attrs) => {
+                let vs: Vec<String> = e
+                    .variants
+                    .iter()
+                    .map(|v| {
+                        format!(
+                            "{{\"name\":{},\"serde\":{},\"fields\":{}}}",
+                            esc(&v.ident.to_string()),
+                            metas(&v.attrs),
+                            fields(&v.fields)
+                        )
+                    })
+                    .collect();
+                out.push(format!(
+                    "{{\"kind\":\"enum\",\"module\":{},\"name\":{},\"line\":{},\"derives\":{},\"serde\":{},\"variants\":[{}]}}",
+                    esc(module),
+                    esc(&e.ident.to_string()),
+                    e.ident.span().start().line,
+                    derives(&e.attrs),
+                    metas(&e.attrs),
+                    vs.join(",")
+                ));
+            }
+            Item::Struct(s) if !has_cfg_test(&s.attrs) => {
+                out.push(format!(
+                    "{{\"kind\":\"struct\",\"module\":{},\"name\":{},\"line\":{},\"derives\":{},\"serde\":{},\"fields\":{}}}",
+                    esc(module),
+                    esc(&s.ident.to_string()),
+                    s.ident.span().start().line,
+                    derives(&s.attrs),
+                    metas(&s.attrs),
+                    fields(&s.fields)
+                ));
+            }
+            Item::Mod(m) if !has_cfg_test(&m.attrs) => {
+                if let Some((_, its)) = &m.content {
+                    items(its, &format!("{}::{}", module, m.ident), out);
+                }
             }
             _ => {}
         }
     }
-    println!("problems={problems}");
+}
+
+fn main() {
+    let mut files = vec![];
+    for path in std::env::args().skip(1) {
+        let src = match std::fs::read_to_string(&path) {
+            Ok(s) => s,
+            Err(e) => {
+                eprintln!("serdetab: cannot read {path}: {e}");
+                std::process::exit(2);
+            }
+        };
+        let file = match syn::parse_file(&src) {
+            Ok(f) => f,
+            Err(e) => {
+                eprintln!("serdetab: cannot parse {path}: {e}");
+                std::process::exit(2);
+            }
+        };
+        let mut out = vec![];
+        items(&file.items, "", &mut out);
+        files.push(format!("{{\"file\":{},\"items\":[{}]}}", esc(&path), out.join(",")));
+    }
+    println!("[{}]", files.join(","));
 }
